@@ -69,6 +69,13 @@ CHECKS = {
     text="Every error exit of the 40 destination-writing functions is covered on all paths: dest must have been cleared at its entry value since the last write, over all dmax elements once the call has written (default build; thorough adds the no-slack configuration, where the first element suffices). The rule checks what is cleared - entry pointer and entry length, which is what orig_dest/orig_dmax exist for - so clearing from an advanced cursor or with a decremented counter is caught. Which exits are errors follows the function's return convention.",
     design_ref="DESIGN.md §3.3, §4 C04",
     note=TB + "; decided assuming C01 (writes stay inside dest); value-level assumptions as for C05; 28 triaged known findings (early exits before dest is validated, uncleared source-size / format violations)"),
+ "C03": dict(
+    engine="pathflags",
+    technique="path-sensitive abstract interpretation with a 'NUL known in dest' typestate over all returns (success and error) of the 31 string producers; exemptions (null dest, zero/oversize dmax, zero-length request) from path facts",
+    category="other",
+    text="For all inputs and prior dest contents: every non-exempt return is reached only after a zero store / zeroing write of length >= 1 into dest, the edge on which the element just stored into (or scanned in) dest compared equal to zero, or a terminating libc routine, with no later write of this call into dest. Thorough adds the no-slack configuration. That the terminator lies inside [0, dmax) is C01's obligation on the same store.",
+    design_ref="DESIGN.md §3.3, §4 C03",
+    note=TB + "; decided assuming C01; libc routines listed as terminating in sa/flags.py; 36 triaged known findings, most of them the same exits as the C04 findings (dest left as passed on early error exits)"),
 }
 
 NOT_APPLICABLE = {
